@@ -10,6 +10,11 @@
     modes, directory family, mapping shapes, summary corruption kinds).  (a) every base image of gen/mkbase.py and every
     image of the family (gen/c05_family.py) x the five modes; (b) corruptions confined to allocation summaries and
     checksum fields (gen/c05_summary.py, through the reader's location map) x modes.  The real e2fsck of the scratch build
+    The family also carries (spec constants ExtStateFamily, CfDirFamily): written / unwritten (fallocated) extents -- every pattern
+    of up to three neighbouring extents x logically+physically contiguous / hole / physically apart x trees that e2fsck leaves
+    alone, collapses (pass 1E) or keeps in a leaf; the reader reads an unwritten block as zeros and every such block sits on
+    non-zero stale bytes -- and casefold filesystems (strict and not) with casefolded and plain directories whose names are valid
+    multi-byte UTF-8, differ only in case / normalisation, or are not UTF-8 at all.  The real e2fsck of the scratch build
     runs on a copy; the independent reader projects the image before and after; one ndjson line per step carries the
     projection; TLC evaluates Ext4Abs!Consistent on it, builds the observable tree and evaluates the invariants of
     FsckPreserve after every line.  Verdicts are TLC's (BADLINE <invariant>); python only runs tools and moves bytes."""
@@ -34,7 +39,7 @@ MC_DEVS = (("MC_FsckPreserve_devcoll.cfg", "DevRehashDropsCollision", "TreeUncha
            ("MC_FsckPreserve_devrebuild.cfg", "DevRebuildDropsLast", "TreeUnchanged"), ("MC_FsckPreserve_devcsum.cfg", "DevCsumClearsLeaf", "TreeUnchanged"),
            ("MC_FsckPreserve_devsbcsum.cfg", "DevSbCsumRefuses", "ExitOK"), ("MC_FsckPreserve_devuninit.cfg", "DevInodeUninitWipes", "TreeUnchanged"),
            ("MC_FsckPreserve_devmergestate.cfg", "DevRebuildMergesAcrossState", "TreeUnchanged"), ("MC_FsckPreserve_devenc.cfg", "DevEncCheckIgnoresStrict", "TreeUnchanged"),
-           ("MC_FsckPreserve_devdupfold.cfg", "DevDupFoldsPlainDir", "TreeUnchanged"))
+           ("MC_FsckPreserve_devdupfold.cfg", "DevDupFoldsPlainDir", "TreeUnchanged"), ("MC_FsckPreserve_devcfhash.cfg", "DevCasefoldOpaqueHashFails", "ConsistentAfter"))
 
 
 # ------------------------------------------------------------------------------------------------------------------
@@ -53,7 +58,27 @@ def observe(img):
     byino = {i["ino"]: i for i in P.get("inodes", [])}
     lin3 = any(d.get("kind") == "linear" and d["dir"] in byino and (byino[d["dir"]]["size"][1] // bs) >= 3 and "dir_index" in P["geo"]["features"]
                for d in P.get("dirs", []))
-    return s, canon, (dsig, msig, lin3)
+    # a casefolded, indexed directory that holds a name which is not valid UTF-8 (fact for the named deviation DevCasefoldOpaqueHashFails)
+    cfinv = any(d.get("kind") == "htree" and d["dir"] in byino and "CASEFOLD" in byino[d["dir"]].get("flags", []) and
+                any(not e[3] and not _is_utf8(e[4]) for e in d.get("ents", [])) for d in P.get("dirs", []))
+    return s, canon, (dsig, msig, lin3, cfinv)
+
+
+def _is_utf8(j):
+    """is the name (in the reader's JSON-safe spelling, bytes outside printable ASCII as \\xNN) valid UTF-8"""
+    if "\\x" not in j:
+        return True
+    out, i = bytearray(), 0
+    while i < len(j):
+        if j[i] == "\\" and j[i + 1:i + 2] == "x":
+            out.append(int(j[i + 2:i + 4], 16)); i += 4
+        else:
+            out.append(ord(j[i])); i += 1
+    try:
+        out.decode("utf8")
+        return True
+    except UnicodeDecodeError:
+        return False
 
 
 def outside_sb_differs(a, b):
@@ -145,7 +170,7 @@ def run_behaviour(job):
                 ex = rc if 0 <= rc < 124 else 99
                 s2, c2, sig2 = observe(w)
                 ln = {"e": "Fsck", "mode": m, "exit": ex, "same": 0,
-                      "dch": 1 if sig2[0] != sigprev[0] else 0, "mch": 1 if sig2[1] != sigprev[1] else 0, "lin3": 1 if sigprev[2] else 0}
+                      "dch": 1 if sig2[0] != sigprev[0] else 0, "mch": 1 if sig2[1] != sigprev[1] else 0, "lin3": 1 if sigprev[2] else 0, "cfinv": 1 if sigprev[3] else 0}
                 if c2 == cprev:
                     ln["same"] = 1
                 elif c2 == c0:
@@ -505,6 +530,18 @@ def run(tier):
             "an after-image whose projection is byte-identical (canonical JSON) to the projection before the run, or to the base image's, is not "
             "evaluated again: TLC's verdict on the identical state is reused (fsck_lines_identical_projection)",
             "ext4_1k/quota/ea_inode base images are finished with e2fsck by gen/mkbase.py (see there)",
+            "unwritten extents: a read returns zeros for an unwritten block exactly as for a hole (the reader honours the uninit bit; cross-checked "
+            "against debugfs rdump on the extent-state carrier); every unwritten block of the family lies on non-zero bytes (measured by the generator), "
+            "so a change of the initialised state of a block changes the content digest",
+            "casefold universe (FsckPreserve!DirOK): a casefolded directory holds no two names with the same folded form, and on a strict-mode filesystem "
+            "no name that is not valid UTF-8 (the kernel refuses to create either); everything else -- invalid UTF-8 in casefolded directories of a "
+            "non-strict filesystem and in plain directories of any filesystem, names differing only in case in plain directories -- is a healthy start. "
+            "The hash of a name that cannot be folded is the hash of its bytes (kernel ext4fs_dirhash), which is how the indexed casefolded directories "
+            "with such names are built (indexed without the flag, then flagged)",
+            "family images are no longer dropped when `e2fsck -fn` of the tree under test complains: whether a start is consistent is TLC's verdict on "
+            "the reader's projection (BaseConsistent)",
+            "not covered: encrypted directories, large_dir (3-level htree), extents longer than 32767/32768 blocks (the length split of the rebuild), "
+            "unwritten extents on bigalloc / 4 KiB-block filesystems, casefold + summary-only corruption (universe b) in the quick tier",
         ]
         return vd.finish()
     finally:
